@@ -112,9 +112,23 @@ pub struct RunOut {
 }
 
 pub fn settings(cap: &Capture, opts: &RunOpts) -> KotoSettings {
-    let mut s = KotoSettings::default().with_stdout(cap.clone()).with_stderr(cap.clone());
-    if let Some(ms) = opts.limit_ms {
-        s = s.with_execution_limit(Duration::from_millis(ms));
+    settings_ordered(cap, opts, false)
+}
+
+/// The builder methods of KotoSettings are documented as independent: `limit_first` applies the
+/// execution limit before the io redirections instead of after them
+pub fn settings_ordered(cap: &Capture, opts: &RunOpts, limit_first: bool) -> KotoSettings {
+    let mut s = KotoSettings::default();
+    if limit_first {
+        if let Some(ms) = opts.limit_ms {
+            s = s.with_execution_limit(Duration::from_millis(ms));
+        }
+    }
+    s = s.with_stdout(cap.clone()).with_stderr(cap.clone());
+    if !limit_first {
+        if let Some(ms) = opts.limit_ms {
+            s = s.with_execution_limit(Duration::from_millis(ms));
+        }
     }
     s.run_tests = !opts.no_tests;
     s.vm_settings.run_import_tests = !opts.no_import_tests;
